@@ -33,7 +33,7 @@ type c04UF struct {
 
 var (
 	c04Ints    = []string{"vInt", "vIntNeg", "vIntZero", "vIntBig", "1", "0", "2", "vStruct.Age", "vStructPtr.ID"}
-	c04Strs    = []string{"vStr", "vStrEmpty", `"lit"`, `"a"`, "vStruct.Name", "vStructPtr.Self.Name", "vSliceStr[0]"}
+	c04Strs    = []string{"vStr", "vStrEmpty", `"lit"`, `"a"`, "vStruct.Name", "vStructPtr.Self.Name", "vSliceStr[0]", "shSC20", "shSE30", "shSX3"}
 	c04Bools   = []string{"vBool", "vBoolF", "true", "false"}
 	c04Floats  = []string{"vF64", "2.5", "0.5"}
 	c04Conts   = []string{"vSliceAny", "vSliceStr", "vSliceInt", "vArr", "vMapStrAny", "vMapIntStr", "vMapAnyAny", "vMapStrInt", "vSliceStruct", "vSliceSlice", "vStruct.Tags", "vStruct.M", "vBytes", "vArrPtr", "vSlicePtr", "vMapPtr", "vNilMap", "vNilSlice"}
